@@ -150,8 +150,8 @@ def multi_pkg(order):
              'func New{T1}() *{T1} {{ return &{T1}{{Addr: {l1}.Addr}} }}\n'
              'func New{T2}(c *{T1}) (*{T2}, error) {{ return &{T2}{{A: c.Addr}}, nil }}\n'
              'func New{T3}(c *{T1}, s *{T2}) *{T3} {{ return &{T3}{{A: c.Addr + s.A + {l2}.A + {l3}}} }}\n'
-             'var _ = kessoku.Inject[*{T3}]("Init{tag}",\n\tkessoku.Async(kessoku.Provide(New{T1})), kessoku.Async(kessoku.Provide(New{T2})), kessoku.Provide(New{T3}),\n)\n'
-             'func main() {{\n\ta, err := Init{tag}(context.Background())\n\tif err != nil || a.A != "{tag}{tag}+{tag}" {{\n\t\tpanic("wrong result " + a.A)\n\t}}\n}}\n'
+             'var _ = kessoku.Inject[*{T3}]("InitApp",\n\tkessoku.Async(kessoku.Provide(New{T1})), kessoku.Async(kessoku.Provide(New{T2})), kessoku.Provide(New{T3}),\n)\n'
+             'func main() {{\n\ta, err := InitApp(context.Background())\n\tif err != nil || a.A != "{tag}{tag}+{tag}" {{\n\t\tpanic("wrong result " + a.A)\n\t}}\n}}\n'
              ).format(T1=T1, T2=T2, T3=T3, l1=l1, l2=l2, l3=l3, tag=tag)
         dflt = 'package main\n\nvar %s = %s{Addr: "%s"}\n\nvar %s = %s{A: "+"}\n\nconst %s = "%s"\n' % (l1, T1, tag, l2, T2, l3, tag)
         return k, dflt
@@ -161,7 +161,8 @@ def multi_pkg(order):
         files["%s/k.go" % dname] = k
         files["%s/defaults.go" % dname] = dflt
     targets = ["api/k.go", "worker/k.go"] if order == 0 else ["worker/k.go", "api/k.go"]
-    return files, targets, dict(kind="naming: two packages with the same name in one invocation", vet_pkgs=["./api", "./worker"], run_pkgs=["./api", "./worker"])
+    return files, targets, dict(kind="naming: two packages with the same name in one invocation", vet_pkgs=["./api", "./worker"], run_pkgs=["./api", "./worker"],
+                                expect_funcs={"api/k_band.go": ["InitApp"], "worker/k_band.go": ["InitApp"]})
 
 
 NAMING = {
@@ -319,6 +320,16 @@ UNIMPORTED_CLASH = {
     "k.go": 'package main\n\nimport (\n\t"github.com/mazrean/kessoku"\n\t"vscratch/fx_unimported_clash/a"\n\t"vscratch/fx_unimported_clash/two/y"\n)\n\nvar _ = kessoku.Inject[*a.App]("InitApp", kessoku.Provide(y.NewOther), kessoku.Provide(a.NewApp))\n',
 }
 
+# a provider of *q.Impl bound to api.Svc: the generated file writes api.Svc only and must not import q (repaired: every import
+# any type of a bound parameter refers to was marked used)
+BIND_UNUSED_IMPORT = {
+    "q/q.go": 'package q\n\ntype Impl struct{ S string }\n\nfunc (i *Impl) Get() string { return i.S }\n',
+    "p/p.go": 'package p\n\nimport "vscratch/fx_bind_unused_import/q"\n\nfunc NewThing() *q.Impl { return &q.Impl{S: "x"} }\n',
+    "api/api.go": 'package api\n\ntype Svc interface{ Get() string }\n',
+    "r/r.go": 'package r\n\nimport "vscratch/fx_bind_unused_import/api"\n\ntype Repo struct{ S api.Svc }\n\nfunc NewRepo(s api.Svc) *Repo { return &Repo{S: s} }\nfunc NewAux() *Repo { return nil }\n',
+    "k.go": 'package main\n\nimport (\n\t"github.com/mazrean/kessoku"\n\t"vscratch/fx_bind_unused_import/api"\n\t"vscratch/fx_bind_unused_import/p"\n\t"vscratch/fx_bind_unused_import/r"\n)\n\nvar _ = kessoku.Inject[api.Svc]("InitSvc", kessoku.Bind[api.Svc](kessoku.Provide(p.NewThing)))\n\ntype Out struct{ A *r.Repo }\n\nfunc NewOut(a *r.Repo, b *r.Repo) *Out { return &Out{A: a} }\n\nvar _ = kessoku.Inject[*Out]("InitOut", kessoku.Async(kessoku.Bind[api.Svc](kessoku.Provide(p.NewThing))), kessoku.Async(kessoku.Provide(r.NewRepo)), kessoku.Provide(NewOut))\n\nfunc main() { println(InitSvc().Get()) }\n',
+}
+
 
 def write_pkg(mod, name, files):
     d = os.path.join(mod, name)
@@ -368,6 +379,7 @@ def _stage(seed, tier, key="N-x"):
         pkgs.append(("ty%d" % i, {"k.go": wrap(body)}, ["k.go"], None, dict(kind="types", types=types)))
     for nm, body in REPAIRED.items():
         pkgs.append(("fx_" + nm, {"k.go": wrap(body)}, ["k.go"], None, dict(kind="reproducer of a repaired type-spelling defect")))
+    pkgs.append(("fx_bind_unused_import", BIND_UNUSED_IMPORT, ["k.go"], None, dict(kind="reproducer of a repaired defect (imports of types that are not written)")))
     pkgs.append(("fx_unimported_clash", UNIMPORTED_CLASH, ["k.go"], None, dict(kind="reproducer of a repaired type-spelling defect (package name of an unimported package)")))
     for o in (0, 1):
         files, targets, meta = multi_pkg(o)
